@@ -127,22 +127,28 @@ package alloctxn
 //@   requires atxnInv(atxn) && lastst == 0
 //@   requires [I1-valid] validBlk(blkno) @C04 @C11 @C01
 //@   allocates buf.Buf
-//@   ensures result != nil && len(result.Data) == 4096 && result.Sz == 32768
+//@   ensures result != nil && len(result.Data) == 4096 && result.Sz == 32768 && result.Addr.Blkno == blkno
 
+// Z1 (C12): a freed block is zero-filled inside the freeing transaction, so a
+// later allocation of it starts from zeros.
 //@ spec (*AllocTxn).ZeroBlock
 //@   props C12 C11
 //@   requires atxnInv(atxn) && lastst == 0
 //@   requires [I1-valid] validBlk(blkno) @C04 @C11
 //@   allocates buf.Buf
-//@   modifies buf.Buf.dirty, []uint8@buf.Buf.Data
-//@   loop 0 invariant len(buf.Data) == 4096
+//@   modifies buf.Buf.dirty, []uint8@buf.Buf.Data, zeroed
+//@   ghostexit zeroed = store(zeroed, blkno, true)
+//@   ensureslocal [Z1-zeroed] buf.Addr.Blkno == blkno && len(buf.Data) == 4096 && (forall j uint64 :: j < 4096 ==> buf.Data[j] == 0) @C12
+//@   loop 0 invariant len(buf.Data) == 4096 && uint64(rangeindex+1) <= 4096 && (forall j uint64 :: j < uint64(rangeindex+1) ==> buf.Data[j] == 0)
 
 //@ spec (*AllocTxn).FreeBlock
 //@   props C12 C05 C11
 //@   requires atxnInv(atxn) && listsValid(atxn) && lastst == 0
 //@   requires [I1-valid] blkno == 0 || validBlk(blkno) @C04 @C11
 //@   allocates buf.Buf
-//@   modifies buf.Buf.dirty, []uint8@buf.Buf.Data, atxn.freeBnums, atxn.freeBnums[*]
+//@   modifies buf.Buf.dirty, []uint8@buf.Buf.Data, atxn.freeBnums, atxn.freeBnums[*], zeroed
+//@   ensures [Z1-freed-zero] blkno != 0 ==> zeroed[blkno] @C12
+//@   ensures [Z1-mono] forall b uint64 :: old(zeroed)[b] ==> zeroed[b] @C12
 //@   ensures listsValid(atxn) && listsStable(atxn)
 //@   ensures [F5-recorded] blkno != 0 ==> len(atxn.freeBnums) == old(len(atxn.freeBnums)) + 1 && atxn.freeBnums[old(len(atxn.freeBnums))] == blkno @C05
 //@   ensures blkno == 0 ==> len(atxn.freeBnums) == old(len(atxn.freeBnums))
